@@ -15,6 +15,7 @@ from fractions import Fraction
 import core
 
 NANV = 9999
+ONAN = 99999999          # NaN marker of outputs expressed in 1/1000 (9999 would collide with the value 9.999)
 
 
 def mk(xs, feat=None):
@@ -45,9 +46,9 @@ def abs_milli(v):
     try:
         v = float(v)
     except Exception:
-        return NANV
-    if math.isnan(v) or math.isinf(v) or abs(v) > 1e5:
-        return NANV
+        return ONAN
+    if math.isnan(v) or math.isinf(v) or abs(v) > 9e4:
+        return ONAN
     return int(round(v * 1000))
 
 
